@@ -4583,8 +4583,11 @@ Case_BaseLdurStur:
             goto EmitOp_Rd0_Rn5;
 
           case 1:
-            if (!check_signature(o0, o3))
+            if (!check_signature(o0, o3) || !check_signature(o1, o2))
               goto InvalidInstruction;
+
+            if (!check_consecutive(o1, o2))
+              goto InvalidPhysId;
 
             if (o3.id() > 31)
               goto InvalidPhysId;
@@ -4593,8 +4596,11 @@ Case_BaseLdurStur:
             goto EmitOp_Rd0_Rn5;
 
           case 2:
-            if (!check_signature(o0, o4))
+            if (!check_signature(o0, o4) || !check_signature(o1, o2, o3))
               goto InvalidInstruction;
+
+            if (!check_consecutive(o1, o2, o3))
+              goto InvalidPhysId;
 
             if (o4.id() > 31)
               goto InvalidPhysId;
@@ -4603,8 +4609,11 @@ Case_BaseLdurStur:
             goto EmitOp_Rd0_Rn5;
 
           case 3:
-            if (!check_signature(o0, o5))
+            if (!check_signature(o0, o5) || !check_signature(o1, o2, o3, o4))
               goto InvalidInstruction;
+
+            if (!check_consecutive(o1, o2, o3, o4))
+              goto InvalidPhysId;
 
             if (o5.id() > 31)
               goto InvalidPhysId;
